@@ -1046,6 +1046,12 @@ pub struct ExploreCfg {
     pub label: String,
 }
 
+/// transitions of the persistent backend that write a range far from offset 0 at depth 20 need gigabytes
+/// (pmtree loads every node to the left of the range): such plans run few workers at a time
+fn max_parallel_for(cfg: &ExploreCfg) -> usize {
+    if cfg.depth >= 16 && cfg.ops.iter().any(|o| matches!(o, TreeOp::Range(s, _) | TreeOp::Batch(s, _, _) if *s > 4096 && *s < (1u64 << 20))) { 3 } else { usize::MAX }
+}
+
 #[derive(Default, Clone)]
 pub struct ExploreStats {
     pub states: u64,
@@ -1166,7 +1172,7 @@ pub fn explore(cfg: &ExploreCfg, findings: &Findings, deadline: Option<std::time
             json!({"focus": cfg.focus.id(), "kind": kind.name(), "depth": cfg.depth, "positions": if cfg.full_obs { Value::Null } else { json!(cfg.positions) },
                    "hist": hist_json(&frontier[ni].hist), "op": cfg.ops[oi].to_json(), "model": model_to_json(&frontier[ni].model)})
         }).collect();
-        let remote_done = tree_pool().map(&remote_reqs);
+        let remote_done = tree_pool().map_limited(&remote_reqs, max_parallel_for(cfg));
         let mut done: Vec<Option<Result<Option<(Judged, Option<Box<dyn Backend>>)>, String>>> = (0..items.len()).map(|_| None).collect();
         for (k, r) in local_idx.iter().zip(local_done.into_iter()) {
             done[*k] = Some(r);
